@@ -443,11 +443,20 @@ class SiblingEngine:
         lb = [b.rename.get(n, n) for n in lb_raw]
         only_a = [n for n in la if n not in lb]
         only_b = [n for n in lb_raw if b.rename.get(n, n) not in la]
-        if not only_a or not only_b or len(only_b) > 2 or len(only_a) > 7:
+        if not only_a or not only_b or len(only_b) > 6 or len(only_a) > 7:
             return None
-        for combo in itertools.permutations(only_a, len(only_b)):
+        # pair k one-sided locals of the fallback with k of the compiled side (largest k first); the remaining ones
+        # stay unpaired (temporaries that exist on one side only)
+        tries = []
+        for k in range(min(len(only_a), len(only_b)), 0, -1):
+            for sub_b in itertools.combinations(only_b, k):
+                for combo in itertools.permutations(only_a, k):
+                    tries.append((sub_b, combo))
+                    if len(tries) > 400:
+                        break
+        for sub_b, combo in tries[:400]:
             ren = dict(b.rename)
-            for raw, tgt in zip(only_b, combo):
+            for raw, tgt in zip(sub_b, combo):
                 ren[raw] = tgt
             a2 = Side(pyx, rename=dict(a.rename), lens=a.lens, label='pyx')
             a2.call_adapters = a.call_adapters
@@ -462,7 +471,7 @@ class SiblingEngine:
             except Exception:
                 continue
             if not c2.mismatches:
-                c2.info.append(f"{title}: locals paired {dict(zip(only_b, combo))} (one-sided renaming)")
+                c2.info.append(f"{title}: locals paired {dict(zip(sub_b, combo))} (one-sided renaming)")
                 return c2
         return None
 
